@@ -10,10 +10,10 @@ import (
 
 func init() {
 	register(&propDef{
-		ID:    "C01",
-		Level: "other",
+		ID:      "C01",
+		Level:   "other",
 		Explain: "Structure of the pipeline registry reply -> tag filter -> health filter -> route commands -> table, decided on every path: (W1) every value sent on the updates channel is configBuilder(healthFilter(tagFilter(reply of Health().State of this iteration))); the filter functions are discovered by this role; (W2) the watch loop carries no state across snapshots except the query index (an instance that became unhealthy cannot survive into a later text); (W3) every cycle of the Consul watch loops is paced: the blocking query's WaitIndex is the loop-carried index advanced from the reply (or the poll branch sleeps), error edges sleep; (F1) in the health filter the append of an instance is, within one outer iteration, unreachable from the true edge of each exclusion (serfHealth critical, _node_maintenance, _service_maintenance:<id> critical on the same node), is dominated by isServiceCheck, by 'passing != 0', and no edge into it carries 'strict and total != passing'; (F2) passing is counted only under same node, same service id and accepted status, total under same node and same service id; (F3) the tag filter keeps serfHealth, _node_maintenance and _service_maintenance* checks without the tag test; (K1) the instance key written by the config builder and the key looked up per catalog entry have the same shape Node \".\" ServiceID; (M1) command lists collected from goroutines / map iteration are sorted before they are joined into the compared text; (B1) the updater writes the service text before the manual text into the buffer it parses, both texts come only from the two registry channels, and the buffer is Reset first. (B2) every update received from either registry channel reaches the rebuild of the candidate text — from the select, the loop head is not reachable without passing the buffer Reset; Not decided: Consul's own semantics, quiescence, and the 'if and only if' over registry histories beyond this per-snapshot structure.",
-		Run:   runC01,
+		Run:     runC01,
 		Trusted: []string{"hashicorp/consul/api returns the health state / catalog of the agent's datacenter; blocking queries honour WaitIndex", "sort.Sort orders the slice"},
 		Mutants: []mutant{
 			{Name: "manual update ignored while the service config is empty", File: "main.go", Old: "\t\t\tcase mancfg = <-man:\n\t\t\t}", New: "\t\t\tcase mancfg = <-man:\n\t\t\t\tif svccfg == \"\" {\n\t\t\t\t\tcontinue\n\t\t\t\t}\n\t\t\t}", Expect: "C01.B2"},
